@@ -22,6 +22,49 @@ object state machine `AP.Obj / AP.Op / Obj.step / World.step` (Model/APObj.lean,
   different orders (rare classes first: failing calls, leap, wrapping, sub-hourly, overnight,
   histories; the reverse; shuffled); an order-dependent failure is replayed as {"order": [...]}.
 
+Round 4 (input shapes, aliasing, conventions, numeric edges, rare branches).  `AnalysisPeriod` has no
+subclass, twin or sibling class in /repo (kind e: nothing to compare across classes; `copy.copy`,
+`copy.deepcopy`, `duplicate` and the three class methods are the "sibling" routes to an equal period
+and are compared with each other).  Added:
+* output shapes (kind f): every listing a read returns must be a real sequence (`_seq`: `len()` and
+  two equal passes -- a generator / map object is refused), containers returned earlier are KEPT by
+  the harness and re-checked after every later step of the history (`_keep`: an aliased template /
+  shared list that a later call rewrites shows as a changed earlier answer);
+* the caller's dictionary (kind f/i): `from_dict` read twice through the SAME dict object, which must
+  still hold the user's entries (`twice`); a full dictionary of another period read first, then the
+  sparse form (`decoy`: a callee that keeps what it read); sparse form (defaults left out), other
+  insertion orders / OrderedDict / dict subclass (`ordered`), text values (`text`); model side
+  `AP.fromDictV` / `AP.fillNone` / `AP.sparseDict` (driver ops `from_dictv`, `sparse`);
+* text for numbers (kind i): the constructor itself with text arguments (all six, and mixed with
+  integers; model `AP.mkText?`, driver op `mk_text`), `from_string` of the text form written in upper
+  case / with doubled, dropped, leading and trailing blanks / zero-padded two-digit fields / after the
+  same text of the other year kind was parsed (`decoy`); month or day "0" in text must be refused;
+  `from_start_end_datetime` with the timestep as text / float;
+* conventions (kind g): membership probes are built alternately by `DateTime.from_moy` and by the plain
+  constructor from stdlib arithmetic; small periods probe every step and every grid point of the
+  first / last day and of the year's last day; counted strata where two conventions differ (leap year
+  spanning 29 Feb on the fast `len`, steps that are not a binary fraction of the hour at the year end);
+* numeric edges (kind h): `is_possible_hour` is asked float hours just inside / outside every edge of
+  the window (1e-12, x +- 1e-9, 22.999999999, 23.000000001, 23.999999999) and integer hours;
+  `hoys` must be floats equal to moy / 60.0 exactly, `hoys_int` integers;
+* rare branches (kind j), counted as `branch:*` from the constructor arguments by `_branches`:
+  __init__: each `or` default, `end_hour is None`, leap / plain table, end day clipped, overnight,
+    reversed, refused by DateTime, IndexError of the month table, invalid timestep alone;
+  _calculate_timestamps: one segment / two segments (reversed);
+  _calc_timestamps: loop step inside / outside the window; the block after the loop -- skipped because
+    hourly / loop stopped before hour 23 / window without hour 0 / window without hour 23 (the repaired
+    conjunct: wrapping period, window 0..end_hour < 23) / taken;
+  is_possible_hour: hour > 23 truncated (hour 0 possible) / used as it is; overnight / daytime test;
+  __len__: fast, fast reversed, slow with empty slots, slow with filled slots (histories);
+  moys/hoys/hoys_int/datetimes/is_time_included: first use (fills the slots) / already filled;
+  doys_int / months_int: plain / reversed (and reversed with the same month at both ends);
+  __repr__: with / without the leap star; from_string: leap star or not, failing parse (re-raised as
+    ValueError); from_dict: each key present / missing / None; __eq__: other is not a period
+    (`eq_other`); from_start_end_datetime: start and end of different year kinds (`start_end_bad`).
+  Not reachable through the public API: `_calc_timestamps` with start after end (the constructor's
+  reversed flag routes those to two calls), `except AttributeError` in DateTime.from_date_time_string
+  (old interpreters only, not used by this class).
+
 Producers and their consumers (each consumer is exercised by `hist`/`history`, by the fresh-object
 ops, or by both):
 * `_calc_timestamps` + `_calculate_timestamps` (enumeration, trailing 23:xx steps, year-wrap split)
@@ -41,6 +84,7 @@ import contextlib
 import io
 import json
 import os
+import re
 import subprocess
 import sys
 from datetime import datetime, timedelta
@@ -53,6 +97,7 @@ PROOF_MODULES = ['Ladybug.Props.C04']
 GREP_MODULES = ['Ladybug.Py', 'Ladybug.Model.Cal', 'Ladybug.Gen.DtTables', 'Ladybug.Proofs.CalLemmas',
                 'Ladybug.Model.AP', 'Ladybug.Gen.ApTables', 'Ladybug.Proofs.C04Lemmas',
                 'Ladybug.Proofs.C04Listings', 'Ladybug.Proofs.C04Order', 'Ladybug.Model.APObj', 'Ladybug.Proofs.C04Obj',
+                'Ladybug.Model.APForms', 'Ladybug.Proofs.C04Forms',
                 'Ladybug.Drv.C04', 'Ladybug.DrvCore', 'Ladybug.Props.C08']
 RULE = ('periods are drawn from the product of boundary sets: dates {1 Jan, 28/29 Feb, 1 Mar, 30/31 of a month, '
         '30/31 Dec, random}, hours {0,1,11,12,22,23,random}^2 (overnight included), all 12 timesteps, both leap '
@@ -66,7 +111,13 @@ RULE = ('periods are drawn from the product of boundary sets: dates {1 Jan, 28/2
         '(membership test, len, refused call, in-place edit, listing), then 5-12 random world ops (52 % reads, 14 % '
         'refused, 10 % edits of returned values, 12 % further periods valid/invalid - 70 % of the valid ones differ '
         'from an existing object only in leap flag / timestep / swapped hours or dates -, 8 % copies, 4 % equality) '
-        'and a final sweep over every observable of every object in random order; distinct = distinct op list.')
+        'and a final sweep over every observable of every object in random order; distinct = distinct op list. '
+        'Round 4: copies are made through every route and shape (duplicate / copy / deepcopy; text form as printed, upper case, '
+        'blanks doubled / dropped / around, zero-padded, after the other year kind; dictionary form json / sparse / read twice '
+        'through one object / other mapping classes and orders / text values / after another full dictionary; '
+        'from_start_end_datetime with int / text / float timestep), 60 % of them are read at once; refused ops include '
+        'from_start_end_datetime with mixed year kinds and == with non-periods; the branches of the anchored functions are '
+        'counted per case (`branch:*`).')
 TRUSTED_BASE = [
     'translator tools/extract/ap_tables.py: copies VALIDTIMESTEPS, NUMOFDAYSEACHMONTH(LEAP), MONTHNAMES',
     'modelled, not verified: CPython datetime += timedelta arithmetic inside one year is minute-of-year '
@@ -78,6 +129,9 @@ TRUSTED_BASE = [
     'change that adds hidden state shows as a `hist` disagreement or `history`/`order` failure on generated '
     'histories only (sampled, not proved of the code); the fresh-interpreter runs cover a slice of the oracle '
     'stream, not the correspondence',
+    'round 4: the harness-side shapes (which blanks / paddings / mapping classes count as "the same text / dictionary") are '
+    'chosen from what from_string / from_dict are coded to accept (lower-casing, blank removal, int()); AP.fromDictV / '
+    'AP.fillNone / AP.mkText? are tied to from_dict / the constructor by the ops from_dictv, sparse, mk_text',
     'the model describes the code with fixes/C04_trailing_steps_window.patch and '
     'fixes/C04_months_per_hour_window.patch applied',
 ]
@@ -97,6 +151,7 @@ LEVEL_TEXT = ('Machine-checked Lean 4 theorems over an executable model of analy
               'filled slots, every public operation, refused assignments and calls, several objects in one process) '
               'is proved to refine the pure specification: after ANY history every answer is the fresh object\'s, a '
               'refused operation changes no observation, reads commute, objects do not influence each other. '
+              'Round 4: reading the same dictionary object twice (from_dict writes None under missing keys) gives the same period, the sparse dictionary form reads back, the result depends on the mapping only, text arguments build the same period as integers (text "0" month/day refused), and the block after the enumeration loop is taken exactly under its four conditions. '
               'The class constants are regenerated from '
               'the source on every run and the model is compared with the real class on boundary-biased inputs.')
 LEVEL_NOTE = ('Trusted: Lean kernel; axioms propext/Classical.choice/Quot.sound only; the constants extractor; the '
@@ -404,10 +459,75 @@ def _chunks(cases, max_steps):
         yield part
 
 
+def _branches(c):
+    """The branches of the anchored functions that the period `c` (constructor arguments) takes --
+    computed from the arguments with plain arithmetic, for the counted strata of kind (j)."""
+    out = []
+    n = _normalise(c)
+    if n is None:
+        return out
+    sm, sd, sh, em, ed, eh, ts, leap = n
+    rev = (sm, sd, sh) > (em, ed, eh)
+    ovn = sh > eh
+    has0 = ovn or sh == 0
+    has23 = ovn or eh == 23
+    out.append('init:leap-table' if leap else 'init:plain-table')
+    out.append('init:overnight' if ovn else 'init:not-overnight')
+    out.append('init:reversed' if rev else 'init:not-reversed')
+    if c[4] not in (None, 0) and c[4] != ed:
+        out.append('init:end-day-clipped')
+    for i, nm in enumerate(('st_month', 'st_day', 'st_hour', 'end_month', 'end_day', 'end_hour', 'timestep')):
+        if c[i] is None or (c[i] == 0 and nm != 'end_hour'):
+            out.append('init:default:' + nm)
+    out.append('enumerate:two-segments' if rev else 'enumerate:one-segment')
+    out.append('loop:some-steps-outside-window' if (sh, eh) != (0, 23) and not (ovn and sh == eh + 1 and ts == 1)
+               else 'loop:every-step-inside')
+    # the block after the loop, per segment: (end hour of the segment)
+    for seg_end in ([23, eh] if rev else [eh]):
+        if ts == 1:
+            out.append('trailing:skipped:hourly')
+        elif seg_end != 23:
+            out.append('trailing:skipped:stops-before-23')
+        elif not has0:
+            out.append('trailing:skipped:no-hour-0')
+        elif not has23:
+            out.append('trailing:skipped:no-hour-23')       # the repaired conjunct (wrapping, window 0..eh<23)
+        else:
+            out.append('trailing:taken')
+    out.append('possible:overnight' if ovn else 'possible:daytime')
+    out.append('possible:after-23:' + ('truncated' if has0 else 'as-is'))
+    if (sh, eh) == (0, 23):
+        out.append('len:fast:reversed' if rev else 'len:fast')
+        d0, d1 = _doy(leap, sm, sd), _doy(leap, em, ed)
+        if leap and ((d0 <= 60 <= d1) if not rev else (d0 <= 60 or 60 <= d1)):
+            out.append('len:fast:leap-spans-29-feb')
+    else:
+        out.append('len:slow')
+    out.append('listings:reversed' if rev else 'listings:plain')
+    if rev and sm == em:
+        out.append('listings:reversed-same-month-twice')
+    out.append('repr:leap-star' if leap else 'repr:plain')
+    if ts in (3, 5, 6, 10, 12, 15, 20, 30, 60):
+        out.append('step:not-a-binary-fraction-of-the-hour')
+        if (rev or (em, ed) == (12, 31)) and has23:
+            out.append('step:not-binary-at-the-year-end')
+    return out
+
+
 def _count_dist(ctx, cases):
     for c, shape in cases:
         ctx.count('shape:' + shape)
+        for b in _branches(c):
+            ctx.count('branch:' + b)
         if shape.startswith('malformed'):
+            try:
+                ts = c[6] or 1
+                ok_dates = _normalise(tuple(c[:6]) + (1, c[7])) is not None
+                ctx.count('branch:init:' + ('bad-timestep-only' if ok_dates and ts not in VALID_TS else
+                                            'end-month-index-error' if isinstance(c[3], int) and not -12 <= (c[3] or 12) - 1 < 12
+                                            else 'datetime-refused'))
+            except Exception:
+                pass
             continue
         ctx.count('timestep:%s' % (c[6],))
         ctx.count('leap:%s' % _b(c[7]))
@@ -501,8 +621,18 @@ def _correspond_histories(ctx):
         ctx.count('history_shape:' + shape)
         ctx.count('history_ops', len(h['ops']))
         ctx.count('history_leap:%s' % _b(h['args'][7]))
+        filled = set()
         for op in h['ops']:
             ctx.count('history_op:' + (op[2] if op[0] == 'on' else op[0]))
+            if op[0] != 'on' and len(op) > 2 and op[0] != 'new' and op[0] != 'eq':
+                ctx.count('history_variant:%s:%s' % (op[0], op[2]))
+            if op[0] == 'on':
+                if op[2] == 'len':
+                    ctx.count('branch:len:history:' + ('slots-filled' if op[1] in filled else 'slots-empty'))
+                if op[2] in ('moys', 'hoys', 'hoys_int', 'datetimes', 'included', 'included_bad') or \
+                        (op[2] == 'mutate_result' and op[3] in ('moys', 'hoys', 'hoys_int', 'datetimes')):
+                    ctx.count('branch:fill:' + ('already-filled' if op[1] in filled else 'first-use'))
+                    filled.add(op[1])
         first = h['ops'][0]
         ctx.count('history_first:' + (first[2] if first[0] == 'on' else first[0]))
     compare_batch(ctx, 'hist', [h for h, _ in hs], _hist_line, _run_history_impl, canon=_canon,
@@ -621,6 +751,8 @@ def _correspond_part(ctx, cs, key):
             s = s.upper().replace(' ', '  ')
         elif r < 0.25:
             s = s.replace(' ', '')
+        elif r < 0.5:
+            s = _text_variant(s, rng.choice(TEXT_VARIANTS))
         strs.append(s)
     strs += ['1/1 to 12/31 between 0 and 23 @1', '1/1 to 12/31 between 0 and 23', '', '*', 'x',
              '1/1 to 2/30 between 0 and 23 @1', '/1 to 12/31 between 0 and 23 @1', '1/1 to /31 between 0 and 23 @1*',
@@ -647,6 +779,52 @@ def _correspond_part(ctx, cs, key):
     compare_batch(ctx, 'from_dict', dcases,
                   lambda kv: ('from_dict ' + ' '.join('%s=%s' % (k, _tok(v)) for k, v in kv)).rstrip(),
                   impl_from_dict, canon=_canon, key=lambda kv: tuple(kv))
+
+    # round 4: the caller's dictionary (None values kept, insertion order kept) and what from_dict
+    # leaves in it (model: AP.fromDictV / AP.fillNone); read twice through the SAME object
+    def impl_from_dictv(kv):
+        d = {}
+        for k, v in kv:
+            d[k] = None if v is None else (bool(v) if k == 'is_leap_year' else v)
+        try:
+            first = _show_ap(_quiet_call(AnalysisPeriod.from_dict, d))
+        except Exception as e:
+            first = 'err:' + err_name(e)
+        try:
+            second = _show_ap(_quiet_call(AnalysisPeriod.from_dict, d))
+        except Exception as e:
+            second = 'err:' + err_name(e)
+        if second != first:
+            first = '%s <> second read %s' % (first, second)
+        return first + ' ; ' + ' '.join('%s=%s' % (k, _tok(v)) for k, v in d.items())
+
+    compare_batch(ctx, 'from_dictv', dcases,
+                  lambda kv: ('from_dictv ' + ' '.join('%s=%s' % (k, _tok(v)) for k, v in kv)).rstrip(),
+                  impl_from_dictv, canon=_canon, key=lambda kv: tuple(kv))
+
+    # round 4: text for the six date/hour numbers (model: AP.mkText?); every refusal is one class here
+    ints = [c for c in cs if all(isinstance(x, int) and not isinstance(x, bool) for x in c[:7])]
+    noerr = lambda t: re.sub(r'err:[\w:-]+', 'err', t.rstrip())  # noqa: E731
+
+    def impl_text(c):
+        try:
+            return _show_ap(_quiet_call(AnalysisPeriod, *([str(x) for x in c[:6]] + [c[6], bool(c[7])])))
+        except Exception as e:
+            return 'err:' + err_name(e)
+
+    compare_batch(ctx, 'mk_text', ints, lambda c: _line('mk_text', c), impl_text, canon=noerr, key=key)
+    for c in ints:
+        if 0 in c[:2] or 0 in c[3:5]:
+            ctx.count('class:text-zero-month-or-day')
+
+    def impl_sparse(c):
+        a = obj(c)
+        d = _dict_variant(a.to_dict(), 'sparse')
+        order = [k for k in DICT_KEYS if k in d]
+        return _show_ap(_quiet_call(AnalysisPeriod.from_dict, dict(d))) + ' ; ' + \
+            ' '.join('%s=%d' % (k, int(d[k])) for k in order)
+
+    compare_batch(ctx, 'sparse', cs, lambda c: _line('sparse', c), impl_sparse, canon=_canon, key=key)
 
 
 def _quiet_call(f, *a):
@@ -755,7 +933,12 @@ def _check_basic(op, inp):
             return bad('fields', norm, got)
         if a.is_reversed != base['reversed'] or a.is_overnight != base['overnight']:
             return bad('flags', (base['reversed'], base['overnight']), (a.is_reversed, a.is_overnight))
-        moys = list(a.moys)
+        try:
+            seqs = dict((nm, _seq(getattr(a, nm))) for nm in ('moys', 'hoys', 'hoys_int', 'datetimes', 'doys_int',
+                                                             'months_int', 'months_per_hour'))
+        except _Observed as e:
+            return bad('not_a_sequence', 'every listing is a sequence (len(), repeatable iteration)', str(e))
+        moys = seqs['moys']
         if moys != exp:
             return bad('moys', brief(exp, moys), brief(moys, exp))
         if len(a) != len(exp):
@@ -773,9 +956,9 @@ def _check_basic(op, inp):
             if (d.month, d.day, d.hour, d.minute, d.leap_year) != (r.month, r.day, r.hour, r.minute, leap) \
                     or d.moy != exp[i]:
                 return bad('datetimes', str(r), str(d))
-        if list(a.hoys) != [m / 60.0 for m in exp]:
+        if seqs['hoys'] != [m / 60.0 for m in exp] or any(type(h) is not float for h in seqs['hoys'][:50]):
             return bad('hoys', 'moys/60', 'different')
-        if list(a.hoys_int) != [m // 60 for m in exp]:
+        if seqs['hoys_int'] != [m // 60 for m in exp] or any(type(h) is not int for h in seqs['hoys_int'][:50]):
             return bad('hoys_int', 'moys//60', 'different')
         # membership test agrees with the enumeration
         members = set(exp)
@@ -784,13 +967,28 @@ def _check_basic(op, inp):
         for m in exp[:3] + exp[-3:] + exp[len(exp) // 2:len(exp) // 2 + 2]:
             probes.update(((m + k) % n) for k in (-60, -1, 0, 1, 60 // ts, 60, 1440))
         probes.update((0, n - 1, n - 60 // ts))
+        if len(exp) <= 700:
+            # small period: every step, and every grid point (finest grid that matters) of the first,
+            # the last and the year's last day
+            probes.update(exp)
+            g = 60 // ts
+            for day0 in (exp[0] // 1440, exp[-1] // 1440, n // 1440 - 1, 0):
+                probes.update(range(day0 * 1440, day0 * 1440 + 1440, g))
+                probes.update(range(day0 * 1440 + 1, day0 * 1440 + 1440, 7 * g + 1))
         for m in sorted(probes):
-            inc = a.is_time_included(DateTime.from_moy(m, leap))
+            inc = a.is_time_included(_probe_datetime(m, leap))
             if inc != (m in members):
                 return bad('included', '%d -> %s' % (m, m in members), '%d -> %s' % (m, inc))
+        for hour in (0.0, 1e-12, sh - 1e-9, float(sh), sh + 1e-9, eh - 1e-9, float(eh), eh + 1e-9, 22.999999999,
+                     23.0, 23.000000001, 23.5, 23.999999999, 12.0, 0.25 / ts, 0, 23, sh, eh, 12):
+            if hour < 0:
+                continue
+            pos = bool(a.is_possible_hour(hour))
+            if pos != bool(_window(norm, hour * 60.0)):
+                return bad('possible_hour', '%r -> %s' % (hour, not pos), '%r -> %s' % (hour, pos))
         # listings
         doys = _dedup_adjacent(m // 1440 + 1 for m in exp)
-        if list(a.doys_int) != doys:
+        if seqs['doys_int'] != doys or list(a.doys_int) != doys:
             return bad('doys_int', brief(doys, a.doys_int), brief(a.doys_int, doys))
         months = _dedup_adjacent((jan1 + timedelta(minutes=m)).month for m in exp[::max(1, ts)] + exp[-1:])
         if list(a.months_int) != months:
@@ -863,6 +1061,100 @@ SET_ATTRS = ['st_month', 'st_day', 'st_hour', 'end_month', 'end_day', 'end_hour'
 MUTABLE_READS = ['moys', 'hoys', 'hoys_int', 'datetimes', 'doys_int', 'months_int', 'months_per_hour', 'to_dict']
 
 
+class _Observed(Exception):
+    pass
+
+
+def _seq(v):
+    """The list of a reported sequence.  What a read reports must be a real sequence (kind f, output
+    side): `len()` works and two passes give the same items -- a generator / `map` / `zip` object that
+    is consumed by the first pass is refused here (`_Observed`)."""
+    try:
+        n = len(v)
+    except TypeError:
+        raise _Observed('%s has no len()' % type(v).__name__)
+    a = list(v)
+    b = list(v)
+    if len(a) != n or len(b) != n:
+        raise _Observed('%s: len() %d, first pass %d items, second pass %d' % (type(v).__name__, n, len(a), len(b)))
+    return a
+
+
+def _text_variant(ap_text, variant):
+    """The text form of a period written the other ways `from_string` is documented / coded to accept
+    (it lower-cases and drops blanks): upper case, blanks doubled / dropped / around the text,
+    two-digit zero-padded fields."""
+    if variant == 'upper':
+        return ap_text.upper()
+    if variant == 'spaces':
+        return '  ' + ap_text.replace(' ', '   ') + '  '
+    if variant == 'nospace':
+        return ap_text.replace(' ', '')
+    if variant == 'padded':
+        return re.sub(r'\d+', lambda m: m.group(0).zfill(2), ap_text)
+    if variant == 'trail':
+        return ap_text + ' '
+    return ap_text
+
+
+TEXT_VARIANTS = ['repr', 'upper', 'spaces', 'nospace', 'padded', 'trail', 'decoy']
+DICT_VARIANTS = ['json', 'sparse', 'twice', 'ordered', 'text', 'decoy']
+DUP_VARIANTS = ['duplicate', 'copy', 'deepcopy']
+START_END_VARIANTS = ['int', 'str_ts', 'float_ts']
+DICT_KEYS = ['st_month', 'st_day', 'st_hour', 'end_month', 'end_day', 'end_hour', 'timestep', 'is_leap_year']
+DICT_DEFAULTS = {'st_month': 1, 'st_day': 1, 'st_hour': 0, 'end_month': 12, 'end_day': 31, 'end_hour': 23,
+                 'timestep': 1, 'is_leap_year': False}
+
+
+def _from_string_variant(cls, text, variant):
+    """`from_string` of the text form written as `variant`; for `decoy` the same text of the OTHER year
+    kind is parsed first (a parser that remembers texts too coarsely shows here)."""
+    if variant == 'decoy':
+        other = text[:-1] if text.endswith('*') else text + '*'
+        try:
+            cls.from_string(other)
+        except Exception:
+            pass                      # e.g. 29 Feb does not exist in the other year kind
+    return cls.from_string(_text_variant(text, variant))
+
+
+class _Dict(dict):
+    """A user's dict subclass (kind i: container shapes)."""
+
+
+def _dict_variant(d, variant, rng_key=0):
+    """The dictionary form `d` (a plain to_dict() result) in another legal shape."""
+    import collections
+    d = json.loads(json.dumps(d))
+    if variant == 'sparse':          # entries equal to the documented default left out
+        return dict((k, v) for k, v in d.items() if k not in DICT_DEFAULTS or DICT_DEFAULTS[k] != v)
+    if variant == 'ordered':         # other insertion order, other mapping classes
+        keys = sorted(d, key=lambda k: ((len(k) * 7 + ord(k[0]) * 13 + ord(k[-1]) * (rng_key + 3)) % 11, k))
+        if rng_key % 2:
+            return collections.OrderedDict((k, d[k]) for k in keys)
+        return _Dict((k, d[k]) for k in reversed(keys))
+    if variant == 'text':            # numbers given as text (the constructor converts with int())
+        return dict((k, (str(v) if k in DICT_KEYS[:6] else v)) for k, v in d.items())
+    return d
+
+
+def _from_dict_variant(cls, d, variant, rng_key=0):
+    """`from_dict` of the dictionary form in shape `variant`; for `twice` the SAME dict object is read
+    twice and must still hold the user's entries, for `decoy` another full dictionary is read first and
+    the sparse form afterwards (a callee that keeps what it read shows here)."""
+    dd = _dict_variant(d, 'sparse' if variant == 'decoy' else variant, rng_key)
+    if variant == 'decoy':
+        leap = not bool(d.get('is_leap_year'))
+        cls.from_dict({'st_month': 7, 'st_day': 7, 'st_hour': 7, 'end_month': 8, 'end_day': 8, 'end_hour': 8,
+                       'timestep': 3, 'is_leap_year': leap, 'type': 'AnalysisPeriod'})
+    if variant == 'twice':
+        before = dict(dd)
+        cls.from_dict(dd)
+        if any(k not in dd or dd[k] != before[k] for k in before):
+            raise _Observed('from_dict changed the entries of the dictionary it was given')
+    return cls.from_dict(dd)
+
+
 def _fields(ap):
     return (ap.st_month, ap.st_day, ap.st_hour, ap.end_month, ap.end_day, ap.end_hour, ap.timestep,
             bool(ap.is_leap_year), bool(ap.is_reversed), bool(ap.is_overnight), bool(ap.is_annual),
@@ -873,6 +1165,8 @@ def _made(f, *a):
     try:
         with _quiet():
             ap = f(*a)
+    except _Observed as e:
+        return ('err', 'observed: %s' % e), None
     except Exception as e:
         return ('err', err_name(e)), None
     try:
@@ -881,8 +1175,53 @@ def _made(f, *a):
         return ('err', 'fields:' + err_name(e)), None
 
 
+def _probe_datetime(moy, leap):
+    """A DateTime for a minute of the year, built alternately through `from_moy` and through the
+    plain constructor from stdlib date arithmetic (two routes: kind g)."""
+    from ladybug.dt import DateTime
+    leap = bool(leap)
+    if (moy // 7) % 2:
+        return DateTime.from_moy(moy, leap)
+    r = datetime(2016 if leap else 2017, 1, 1) + timedelta(minutes=moy)
+    return DateTime(r.month, r.day, r.hour, r.minute, leap)
+
+
+_KEPT = {}          # id(world list) -> [(description, live result object, snapshot)]
+
+
+def _keep(objs, what, live):
+    """Remember a mutable container a read returned, with a snapshot of its content."""
+    if isinstance(live, (list, dict)) and len(live) <= 4000:
+        kept = _KEPT.setdefault(id(objs), [])
+        kept.append((what, live, dict(live) if isinstance(live, dict) else list(live)))
+        del kept[:-8]
+    return live
+
+
+def _kept_changed(objs):
+    """An answer given earlier (the very object the caller still holds) differs now."""
+    for what, live, snap in _KEPT.get(id(objs), ()):
+        if (dict(live) if isinstance(live, dict) else list(live)) != snap:
+            return what
+    return None
+
+
 def _exec_step(objs, op):
-    """One world op on the real code -> ('ok', kind, value) | ('err', class).  Never raises."""
+    """One world op on the real code -> ('ok', kind, value) | ('err', class).  Never raises.
+    Containers returned by earlier reads of the same history are kept by the caller: when a later
+    operation changes one of them the step answers ('err', 'observed: ...')."""
+    if len(_KEPT) > 64:
+        _KEPT.clear()
+    res = _exec_step1(objs, op)
+    if not (op[0] == 'on' and op[2] == 'mutate_result'):
+        changed = _kept_changed(objs)
+        if changed:
+            _KEPT.pop(id(objs), None)
+            return ('err', 'observed: the value returned earlier by %s changed after this operation' % changed)
+    return res
+
+
+def _exec_step1(objs, op):
     from ladybug.analysisperiod import AnalysisPeriod
     from ladybug.dt import DateTime
     try:
@@ -891,24 +1230,24 @@ def _exec_step(objs, op):
             ap = objs[op[1]]
             name = op[2]
             if name == 'moys':
-                return ('ok', 'nats', list(ap.moys))
+                return ('ok', 'nats', _seq(_keep(objs, 'moys of object %d' % op[1], ap.moys)))
             if name == 'hoys':
-                return ('ok', 'floats', list(ap.hoys))
+                return ('ok', 'floats', _seq(_keep(objs, 'hoys of object %d' % op[1], ap.hoys)))
             if name == 'hoys_int':
-                return ('ok', 'nats', list(ap.hoys_int))
+                return ('ok', 'nats', _seq(_keep(objs, 'hoys_int of object %d' % op[1], ap.hoys_int)))
             if name == 'datetimes':
                 return ('ok', 'dts', [(d.month, d.day, d.hour, d.minute, bool(d.leap_year), d.moy)
-                                      for d in ap.datetimes])
+                                      for d in _seq(_keep(objs, 'datetimes of object %d' % op[1], ap.datetimes))])
             if name == 'len':
                 return ('ok', 'nat', len(ap))
             if name == 'doys':
-                return ('ok', 'nats', list(ap.doys_int))
+                return ('ok', 'nats', _seq(_keep(objs, 'doys_int of object %d' % op[1], ap.doys_int)))
             if name == 'months':
-                return ('ok', 'nats', list(ap.months_int))
+                return ('ok', 'nats', _seq(_keep(objs, 'months_int of object %d' % op[1], ap.months_int)))
             if name == 'mph':
-                return ('ok', 'triples', [tuple(t) for t in ap.months_per_hour])
+                return ('ok', 'triples', [tuple(t) for t in _seq(_keep(objs, 'months_per_hour of object %d' % op[1], ap.months_per_hour))])
             if name == 'included':
-                return ('ok', 'bool', bool(ap.is_time_included(DateTime.from_moy(op[3], ap.is_leap_year))))
+                return ('ok', 'bool', bool(ap.is_time_included(_probe_datetime(op[3], ap.is_leap_year))))
             if name == 'possible':
                 return ('ok', 'bool', bool(ap.is_possible_hour(op[3] / 60.0)))
             if name == 'repr':
@@ -917,11 +1256,23 @@ def _exec_step(objs, op):
                     return ('ok', 'str', '%s <> str %s' % (r, str(ap)))
                 return ('ok', 'str', r)
             if name == 'to_dict':
-                return ('ok', 'dict', dict(ap.to_dict()))
+                return ('ok', 'dict', dict(_keep(objs, 'to_dict of object %d' % op[1], ap.to_dict())))
             if name == 'fields':
                 return ('ok', 'fields', _fields(ap))
             if name == 'duplicate':
                 return _made(ap.duplicate)[0]
+            if name == 'eq_other':
+                # comparison with something that is not a period: not equal, and no exception
+                other = {'none': None, 'str': repr(ap), 'tuple': _fields(ap)[:8], 'int': 5}[op[3]]
+                e = (ap == other)
+                if e or not (ap != other):
+                    return ('ok', 'str', 'equal to %r' % (other,))
+                return ('ok', 'bool', False)
+            if name == 'start_end_bad':
+                # start and end of different year kinds: refused (AssertionError)
+                o = _probe_datetime(ap.end_time.moy if ap.end_time.moy < 80000 else 1440, not ap.is_leap_year)
+                AnalysisPeriod.from_start_end_datetime(ap.st_time, o, ap.timestep)
+                return ('ok', 'unit', None)
             if name == 'set_attr':
                 setattr(ap, op[3], op[4])
                 return ('ok', 'set', op[3])
@@ -943,17 +1294,21 @@ def _exec_step(objs, op):
                     v.pop('timestep', None)
                 return ('ok', 'unit', None)
             return ('err', 'harness-unknown-read')
+        variant = op[2] if len(op) > 2 and kind != 'eq' and kind != 'new' else None
         if kind == 'new':
             res, ap = _made(AnalysisPeriod, *op[1:9])
         elif kind == 'dup':
-            res, ap = _made(objs[op[1]].duplicate)
+            import copy
+            o = objs[op[1]]
+            res, ap = _made({'copy': lambda: copy.copy(o), 'deepcopy': lambda: copy.deepcopy(o)}.get(variant, o.duplicate))
         elif kind == 'via_string':
-            res, ap = _made(AnalysisPeriod.from_string, repr(objs[op[1]]))
+            res, ap = _made(_from_string_variant, AnalysisPeriod, repr(objs[op[1]]), variant)
         elif kind == 'via_dict':
-            res, ap = _made(AnalysisPeriod.from_dict, json.loads(json.dumps(objs[op[1]].to_dict())))
+            res, ap = _made(_from_dict_variant, AnalysisPeriod, objs[op[1]].to_dict(), variant or 'json', op[1] + len(objs))
         elif kind == 'via_start_end':
             o = objs[op[1]]
-            res, ap = _made(AnalysisPeriod.from_start_end_datetime, o.st_time, o.end_time, o.timestep)
+            ts = {'str_ts': str, 'float_ts': float}.get(variant, int)(o.timestep)
+            res, ap = _made(AnalysisPeriod.from_start_end_datetime, o.st_time, o.end_time, ts)
         elif kind == 'eq':
             a, b = objs[op[1]], objs[op[2]]
             e = (a == b)
@@ -965,6 +1320,8 @@ def _exec_step(objs, op):
         if ap is not None:
             objs.append(ap)
         return res
+    except _Observed as e:
+        return ('err', 'observed: %s' % e)
     except Exception as e:
         return ('err', err_name(e))
 
@@ -1001,9 +1358,18 @@ def _fmt_step(res):
     return 'ok'
 
 
+MODEL_SKIP = ('eq_other', 'start_end_bad')      # executed on the real class, judged by the oracle only
+
+
+def _model_has(op):
+    return not (op[0] == 'on' and op[2] in MODEL_SKIP)
+
+
 def _hist_line(h):
     parts = ['hist ' + ' '.join(_tok(x) for x in h['args'][:7]) + ' ' + _b(h['args'][7])]
     for op in h['ops']:
+        if not _model_has(op):
+            continue
         if op[0] == 'on':
             name = op[2]
             if name in ('included', 'possible'):
@@ -1025,7 +1391,8 @@ def _run_history_impl(h):
     if ap is None:
         return _fmt_step(res0)
     objs = [ap]
-    return ' | '.join(_fmt_step(_exec_step(objs, op)) for op in h['ops'])
+    outs = [(op, _exec_step(objs, op)) for op in h['ops']]
+    return ' | '.join(_fmt_step(res) for op, res in outs if _model_has(op))
 
 
 def _ap_class():
@@ -1080,8 +1447,12 @@ def _random_refused(rng, i):
                      'st_month': rng.randrange(1, 13), 'end_month': rng.randrange(1, 13)}.get(name, rng.randrange(1, 29))
             return ['on', i, 'set_attr', name, value]
         return ['on', i, 'set_attr', rng.choice(SET_ATTRS), rng.choice([1, 2, 4, 0, 12, 23, True, False, None])]
-    if r < 0.75:
+    if r < 0.72:
         return ['on', i, 'included_bad', rng.choice(['none', 'int'])]
+    if r < 0.8:
+        return ['on', i, 'start_end_bad']
+    if r < 0.86:
+        return ['on', i, 'eq_other', rng.choice(['none', 'str', 'tuple', 'int'])]
     return ['on', i, 'possible_bad', rng.choice(['str', 'none'])]
 
 
@@ -1126,13 +1497,13 @@ def _gen_history(ctx, rng):
     for _ in range(n):
         i = rng.randrange(len(cs))
         r = rng.random()
-        if r < 0.52:
+        if r < 0.48:
             ops.append(_random_read(rng, cs[i], i))
-        elif r < 0.66:
+        elif r < 0.62:
             ops.append(_random_refused(rng, i))
-        elif r < 0.76:
+        elif r < 0.71:
             ops.append(['on', i, 'mutate_result', rng.choice(MUTABLE_READS)])
-        elif r < 0.83 and len(cs) < 4:
+        elif r < 0.78 and len(cs) < 4:
             if rng.random() < 0.7:
                 c2 = _flip_kind(rng, cs[i])
             else:
@@ -1142,13 +1513,18 @@ def _gen_history(ctx, rng):
                 cs.append(c2)
                 if rng.random() < 0.7:     # read the newcomer at once: a memo keyed too coarsely shows here
                     ops.append(_random_read(rng, c2, len(cs) - 1))
-        elif r < 0.88:
+        elif r < 0.83:
             bad, _ = _gen_malformed(rng)
             if _normalise(bad) is None:
                 ops.append(['new'] + list(bad))
-        elif r < 0.96 and len(cs) < 4:
-            ops.append([rng.choice(['dup', 'via_string', 'via_dict', 'via_start_end']), i])
+        elif r < 0.96 and len(cs) < 5:
+            kind = rng.choice(['dup', 'via_string', 'via_string', 'via_dict', 'via_dict', 'via_start_end'])
+            variants = {'dup': DUP_VARIANTS, 'via_string': TEXT_VARIANTS, 'via_dict': DICT_VARIANTS,
+                        'via_start_end': START_END_VARIANTS}[kind]
+            ops.append([kind, i, rng.choice(variants)])
             cs.append(_normalise(cs[i]))
+            if rng.random() < 0.6:     # read the copy at once (objects built from text / sparse dictionaries)
+                ops.append(_random_read(rng, cs[-1], len(cs) - 1))
         else:
             ops.append(['eq', i, rng.randrange(len(cs))])
     # final sweep: every observable of every object, in random order
@@ -1182,6 +1558,19 @@ FIXED_HISTORIES = [
              ['on', 2, 'moys'], ['on', 2, 'doys'], ['eq', 0, 2], ['eq', 0, 1], ['via_string', 1],
              ['on', 3, 'fields'], ['via_dict', 0], ['on', 4, 'datetimes'], ['via_start_end', 0],
              ['on', 5, 'len'], ['on', 5, 'moys']]},
+    # round 4: every copy route in every shape, results kept by the caller, comparisons with non-periods
+    {'args': [12, 31, 20, 1, 1, 5, 4, True],
+     'ops': [['on', 0, 'to_dict'], ['via_dict', 0, 'twice'], ['via_dict', 0, 'decoy'], ['via_dict', 1, 'sparse'],
+             ['on', 2, 'to_dict'], ['on', 0, 'to_dict'], ['via_dict', 0, 'text'], ['via_dict', 0, 'ordered'],
+             ['on', 3, 'moys'], ['on', 4, 'mph'], ['on', 5, 'len'], ['on', 5, 'doys'], ['on', 1, 'months'],
+             ['on', 0, 'eq_other', 'str'], ['on', 0, 'eq_other', 'none'], ['on', 0, 'start_end_bad'], ['on', 0, 'moys']]},
+    {'args': [2, 28, 9, 3, 1, 18, 3, True],
+     'ops': [['via_string', 0, 'decoy'], ['via_string', 0, 'padded'], ['via_string', 0, 'upper'],
+             ['via_string', 1, 'spaces'], ['via_string', 2, 'nospace'], ['via_string', 0, 'trail'], ['on', 1, 'fields'],
+             ['on', 2, 'moys'], ['on', 3, 'doys'], ['on', 4, 'hoys'], ['on', 5, 'len'], ['on', 6, 'mph'],
+             ['dup', 0, 'copy'], ['dup', 1, 'deepcopy'], ['via_start_end', 0, 'str_ts'], ['via_start_end', 0, 'float_ts'],
+             ['on', 7, 'hoys_int'], ['on', 8, 'datetimes'], ['on', 9, 'months'], ['on', 10, 'included', 84960],
+             ['eq', 0, 8], ['eq', 3, 9]]},
     # same object asked twice, other timestep in between
     {'args': [6, 1, 22, 6, 3, 2, 3, False],
      'ops': [['on', 0, 'mph'], ['on', 0, 'mph'], ['new', 6, 1, 22, 6, 3, 2, 12, False], ['on', 1, 'mph'],
@@ -1256,9 +1645,13 @@ def _check_obs(norm, op, res):
     name = op[2]
     e = _exp(norm)
     exp = e['moys']
-    refused = name in ('set_attr', 'included_bad', 'possible_bad')
+    refused = name in ('set_attr', 'included_bad', 'possible_bad', 'start_end_bad')
     if refused or name == 'mutate_result':
         return None                       # what matters is that the later reads are unchanged
+    if name == 'eq_other':
+        if res[0] == 'ok' and res[1] == 'str':
+            return ('equality', 'a period differs from %s' % op[3], res[2])
+        return None
     if res[0] == 'err':
         return (name + '_raises', 'an answer', 'raises ' + res[1])
     v = res[2]
@@ -1366,14 +1759,14 @@ def _check_history(inp):
             if op[1] >= len(norms):
                 continue
             want = norms[op[1]]
+            what = {'dup': 'duplicate', 'via_string': 'text_roundtrip', 'via_dict': 'dict_roundtrip',
+                    'via_start_end': 'start_end_roundtrip'}[kind] + (':' + str(op[2]) if len(op) > 2 else '')
             if res[0] == 'err':
-                bad = ({'dup': 'duplicate', 'via_string': 'text_roundtrip', 'via_dict': 'dict_roundtrip',
-                        'via_start_end': 'start_end_roundtrip'}[kind], 'reads back', 'raises ' + res[1])
+                bad = (what, 'reads back', 'raises ' + res[1])
             else:
                 norms.append(want)
                 if tuple(res[2]) != _exp_fields(want):
-                    bad = ({'dup': 'duplicate', 'via_string': 'text_roundtrip', 'via_dict': 'dict_roundtrip',
-                            'via_start_end': 'start_end_roundtrip'}[kind], _exp_fields(want), tuple(res[2]))
+                    bad = (what, _exp_fields(want), tuple(res[2]))
         elif kind == 'eq':
             if op[1] >= len(norms) or op[2] >= len(norms):
                 continue
@@ -1395,22 +1788,61 @@ def _check_history(inp):
     return None
 
 
+def _creates(op):
+    """Does this world op append an object (when the unchanged class accepts it)?"""
+    if op[0] == 'new':
+        return _normalise(tuple(op[1:9])) is not None
+    return op[0] in ('dup', 'via_string', 'via_dict', 'via_start_end')
+
+
+def _refs(op):
+    """Positions inside `op` that hold object indices."""
+    if op[0] == 'on' or op[0] in ('dup', 'via_string', 'via_dict', 'via_start_end'):
+        return [1]
+    if op[0] == 'eq':
+        return [1, 2]
+    return []
+
+
+def _drop_creator(ops, i):
+    """`ops` without the object-creating op at position i (later indices renumbered); None when a
+    later op uses the object it creates."""
+    j = 1 + sum(1 for op in ops[:i] if _creates(op))
+    out = list(ops[:i])
+    for op in ops[i + 1:]:
+        op = list(op)
+        for k in _refs(op):
+            if op[k] == j:
+                return None
+            if op[k] > j:
+                op[k] -= 1
+        out.append(op)
+    return out
+
+
 def _shrink_history(inp, res):
-    """Drop reads that are not needed for the failure (keeps object-creating ops and the failing step)."""
+    """Drop operations that are not needed for the failure: reads first, then object-creating ops whose
+    object is not used afterwards (indices renumbered).  Every candidate is re-evaluated."""
     ops = list(inp['ops'][:res.get('step', len(inp['ops']) - 1) + 1])
     what = res['sig'].get('what')
     best = dict(inp, ops=ops)
-    i = len(ops) - 2
-    budget = 60
-    while i >= 0 and budget > 0:
-        if ops[i][0] in ('on', 'eq'):
-            trial = dict(inp, ops=ops[:i] + ops[i + 1:])
-            budget -= 1
-            r = _check_history(trial)
-            if r and r['sig'].get('what') == what:
-                ops = trial['ops']
-                best = trial
-        i -= 1
+    budget = 80
+    for _round in range(2):
+        i = len(ops) - 2
+        while i >= 0 and budget > 0:
+            trial_ops = None
+            if ops[i][0] in ('on', 'eq') or (ops[i][0] == 'new' and not _creates(ops[i])):
+                trial_ops = ops[:i] + ops[i + 1:]
+            elif _creates(ops[i]):
+                trial_ops = _drop_creator(ops, i)
+            if trial_ops is not None:
+                trial = dict(inp, ops=trial_ops)
+                budget -= 1
+                r = _check_history(trial)
+                if r and r['sig'].get('what') == what:
+                    ops = trial['ops']
+                    best = trial
+            i -= 1
     return best
 
 
@@ -1436,9 +1868,14 @@ def _shrink_history_fresh(inp, res, budget=12):
     ops = list(trunc['ops'])
     i = len(ops) - 2
     while i >= 0 and budget > 0:
+        trial_ops = None
         if ops[i][0] in ('on', 'eq'):
+            trial_ops = ops[:i] + ops[i + 1:]
+        elif _creates(ops[i]):
+            trial_ops = _drop_creator(ops, i)
+        if trial_ops is not None:
             budget -= 1
-            trial = dict(inp, ops=ops[:i] + ops[i + 1:])
+            trial = dict(inp, ops=trial_ops)
             if _fails_fresh('history', trial, what):
                 ops = trial['ops']
         i -= 1
@@ -1622,12 +2059,21 @@ def _check_reject_forms(inp):
         s = '%d/%d to %d/%d between %d and %d @%d%s' % (args[0], args[1], args[3], args[4], args[2], args[5],
                                                          args[6], '*' if args[7] else '')
         entries.append(('from_string', AnalysisPeriod.from_string, (s,)))
+        entries.append(('from_string:padded', AnalysisPeriod.from_string, (_text_variant(s, 'padded'),)))
+        entries.append(('from_string:upper', AnalysisPeriod.from_string, (_text_variant(s, 'upper'),)))
+        if args[6] in VALID_TS:
+            entries.append(('text_arguments', AnalysisPeriod, tuple(str(x) for x in args[:6]) + (args[6], args[7])))
     for name, f, a in entries:
         try:
             with _quiet():
                 got = f(*a)
         except (ValueError, IndexError):
             continue
+        except TypeError as e:
+            if name == 'text_arguments':
+                continue          # text month used as an index when the end day needs clipping: still a refusal
+            return {'required': 'ValueError', 'observed': '%s raises %r' % (name, e),
+                    'sig': {'what': 'reject-class', 'entry': name}}
         except Exception as e:
             return {'required': 'ValueError', 'observed': '%s raises %r' % (name, e),
                     'sig': {'what': 'reject-class', 'entry': name}}
@@ -1655,12 +2101,20 @@ def _check_forms_extra(inp):
     text = '%d/%d to %d/%d between %d and %d @%d%s' % (sm, sd, em, ed, sh, eh, ts, '*' if leap else '')
     if not (str(a) == repr(a) == a.ToString() == text):
         return bad('repr', text, repr(a))
-    keys = ['st_month', 'st_day', 'st_hour', 'end_month', 'end_day', 'end_hour', 'timestep', 'is_leap_year']
+    keys = DICT_KEYS
+    import copy
     made = [('start_end_roundtrip', lambda: AnalysisPeriod.from_start_end_datetime(a.st_time, a.end_time, ts)),
+            ('start_end_roundtrip:str_ts', lambda: AnalysisPeriod.from_start_end_datetime(a.st_time, a.end_time, str(ts))),
             ('dict_form', lambda: AnalysisPeriod.from_dict(dict((k, v) for k, v in zip(keys, args) if v is not None))),
-            ('text_form', lambda: AnalysisPeriod.from_string(text)),
-            ('text_form', lambda: AnalysisPeriod.from_string(text.upper().replace(' ', '  ')))]
-    for what, f in made:
+            ('copy', lambda: copy.copy(a)), ('deepcopy', lambda: copy.deepcopy(a if n_steps <= 120 else _mk(args))),
+            # numbers given as text: the constructor itself (what from_string calls), mixed with integers
+            ('text_arguments', lambda: AnalysisPeriod(str(sm), str(sd), str(sh), str(em), str(ed), str(eh), ts, leap)),
+            ('text_arguments:mixed', lambda: AnalysisPeriod(str(sm), sd, str(sh), em, str(ed), eh, ts, leap))]
+    made += [('text_form:' + v, (lambda v=v: _from_string_variant(AnalysisPeriod, text, v))) for v in TEXT_VARIANTS]
+    made += [('dict_form:' + v, (lambda v=v: _from_dict_variant(AnalysisPeriod, a.to_dict(), v, sd + eh)))
+             for v in DICT_VARIANTS]
+    n_steps = len(a)
+    for i, (what, f) in enumerate(made):
         res, b = _made(f)
         if b is None:
             return bad(what, 'builds %s' % text, 'raises ' + res[1])
@@ -1668,15 +2122,89 @@ def _check_forms_extra(inp):
             return bad(what, want, tuple(res[2]))
         if b != a or not (b == a) or hash(b) != hash(a):
             return bad(what + '_equal', 'equal to the period', 'not equal / other hash')
-        if list(b.moys) != list(a.moys) and len(a) < 20000:
-            return bad(what + '_moys', 'same steps', 'different steps')
+        if n_steps <= 120 or (n_steps < 20000 and i % 10 == (sd + eh + sm) % 10):
+            # the period read back enumerates the same steps and gives the same listings
+            for nm in ('moys', 'doys_int', 'months_int', 'months_per_hour'):
+                try:
+                    if _seq(getattr(b, nm)) != _seq(getattr(a, nm)):
+                        return bad(what + '_' + nm, 'same %s' % nm, 'different %s' % nm)
+                except _Observed as e:
+                    return bad('not_a_sequence', 'every listing is a sequence', str(e))
+            if len(b) != len(a):
+                return bad(what + '_len', len(a), len(b))
+    if (sd + eh) % 4 == 0:
+        # in the text form a month / day "0" is not a missing value: it is no calendar date
+        for k, zero in enumerate(['0/%d to %d/%d' % (sd, em, ed), '%d/0 to %d/%d' % (sm, em, ed),
+                                  '%d/%d to 0/%d' % (sm, sd, ed), '%d/%d to %d/0' % (sm, sd, em),
+                                  '%d/%d to %d/%d' % (sm, sd, em, 32 + ed)]):
+            t2 = '%s between %d and %d @%d%s' % (zero, sh, eh, ts, '*' if leap else '')
+            try:
+                got = _quiet_call(AnalysisPeriod.from_string, t2)
+            except ValueError:
+                continue
+            except Exception as e:
+                return bad('text_reject_class', 'ValueError for %r' % t2, repr(e))
+            if k == 4 and tuple(_fields(got)[:8]) == norm[:4] + (_mlen(leap, em),) + norm[5:]:
+                continue         # an end day beyond the month may be clipped (documented) or refused
+            return bad('text_reject', '%r rejected' % t2, repr(got))
     other = _mk((sm, sd, sh, em, ed, eh, ts, not leap)) if (sm, sd) != (2, 29) and (em, ed) != (2, 29) else None
     if other is not None and (other == a or not (other != a)):
         return bad('equality', 'periods of different year kinds differ', 'equal')
     return None
 
 
+FLOAT_TS_CORPUS = [[1, 1, 0, 1, 1, 23, 2, False], [12, 31, 20, 1, 1, 5, 4, True], [3, 1, 7, 3, 3, 7, 15, False],
+                   [6, 1, 0, 6, 2, 23, 1, True], [2, 28, 9, 3, 1, 18, 3, True], [1, 1, 9, 1, 1, 10, 60, False]]
+
+
+def _check_float_timestep(inp):
+    """Input shape (kind i): the timestep given as a float that equals a valid timestep (2.0 -- what a
+    JSON number or a .NET double delivers; from_string and from_start_end_datetime convert with int()).
+    The class accepts it (2.0 is `in VALIDTIMESTEPS`), so the period it builds must enumerate exactly
+    the steps of the integer timestep."""
+    AnalysisPeriod = _ap_class()
+    args = tuple(inp['args'])
+    norm = _normalise(args)
+    if norm is None or args[6] in (None, 0):
+        return None
+    sig = {'what': 'float_timestep', 'leap': norm[7], 'sub_hourly': norm[6] > 1}
+    fargs = args[:6] + (float(args[6]), args[7])
+    for route, build in (('constructor', lambda: AnalysisPeriod(*fargs)),
+                         ('from_dict', lambda: AnalysisPeriod.from_dict(dict(zip(DICT_KEYS, fargs))))):
+        res, b = _made(build)
+        if b is None:
+            # refusing a float would be a way to keep the statement; accepting and failing later is not
+            continue
+        exp = _exp(norm)
+        for nm, want, get in (('len', len(exp['moys']), lambda: len(b)),
+                              ('moys', exp['moys'], lambda: _seq(b.moys)),
+                              ('months_per_hour', None, lambda: _seq(b.months_per_hour)),
+                              ('timestep', norm[6], lambda: b.timestep)):
+            try:
+                got = get()
+            except _Observed as e:
+                return {'required': 'a sequence', 'observed': str(e), 'sig': dict(sig, observable=nm, error='shape')}
+            except Exception as e:
+                return {'required': '%s of the accepted period %r' % (nm, b), 'observed': 'raises %s: %s' % (type(e).__name__, e),
+                        'sig': dict(sig, observable=nm, error=type(e).__name__, route=route)}
+            if nm == 'months_per_hour':
+                bad = _check_mph(norm, [tuple(t) for t in got])
+                if bad:
+                    return {'required': bad[1], 'observed': bad[2], 'sig': dict(sig, observable=nm, error='value')}
+            elif nm == 'timestep':
+                if got != want or not isinstance(got, int):
+                    return {'required': 'the integer %d' % want, 'observed': repr(got),
+                            'sig': dict(sig, observable=nm, error='value', route=route)}
+            elif got != want:
+                return {'required': _brief(want, got) if nm == 'moys' else want,
+                        'observed': _brief(got, want) if nm == 'moys' else got,
+                        'sig': dict(sig, observable=nm, error='value', route=route)}
+    return None
+
+
 def check_case(op, inp):
+    if op == 'float_ts':
+        return _check_float_timestep(inp)
     if op == 'history':
         return _check_history(inp)
     if op == 'order':
@@ -1697,11 +2225,13 @@ replay = check_case
 def _oracle_cases(ctx):
     rng = ctx.rng
     big = ctx.searching or not ctx.quick
-    n = 5000 if big else 700
+    n = 4300 if big else 700
     cap = 6e6 if big else 9e5
     if ctx.searching and ctx.quick:
         n, cap = 2500, 3e6
     cases = _periods(ctx, n, cap, rng=rng, malformed=0.12)
+    for c in FLOAT_TS_CORPUS:                 # few on purpose: an open finding must not fill the failure list
+        yield 'float_ts', {'args': list(c)}
     for c, shape in cases:
         ctx.count('oracle_shape:' + shape)
         inp = {'args': list(c)}
